@@ -159,7 +159,7 @@ def main(prop):
                       "input lines carry no trailing blanks (the second pass right-strips the raw line)"]
     ck.canon = ["output records mapped to input ordinals by exact text of all but the last three fields",
                 ".gsi offsets resolved to output record positions by tell()/readline() over the real output"]
-    ck.lean_build(["Gaftools.Props.C09b" if prop == "C09" else "Gaftools.Props.%s" % prop] + (["Gaftools.Props.TieA2", "Gaftools.Props.TieA6"] if prop in ("C08", "C09") else []) + (["Gaftools.Props.TieA8"] if prop in ("C09", "C10") else []))
+    ck.lean_build(["Gaftools.Props.C09b" if prop == "C09" else "Gaftools.Props.%s" % prop] + (["Gaftools.Props.TieA2", "Gaftools.Props.TieA6", "Gaftools.Props.TieA24"] if prop in ("C08", "C09") else []) + (["Gaftools.Props.TieA8"] if prop in ("C09", "C10") else []))
     ck.audit("%s.lean" % prop)
 
     quick = ck.tier == "quick"
